@@ -19,6 +19,7 @@ inductive SV
   | list (shown hidden : List Int)
   | nil
   | map (m : List (Int × SVal))
+  | raw (s : String)   -- a caller-owned operand list, compared verbatim
   | junk
 deriving DecidableEq, Repr
 
@@ -49,6 +50,7 @@ def parseSV (s : String) : SV :=
       | _ => none)) with
     | some m => .map m
     | none => .junk
+  else if s.startsWith "(" then .raw s
   else .junk
 
 /-- one step of an observation: result words and the dump -/
@@ -113,6 +115,7 @@ def expectNew (iface : Bool) (d : List (String × SV)) : Op → Option SV
       | .filter p => Spec.filterIdx (Spec.predFn p) l
       | .reject p => Spec.rejectIdx (Spec.predFn p) l
       | .notnil => Spec.notNil iface l
+      | .notnilp => Spec.notNilPtr l
       | .distinct => Spec.distinct l
       | .clone => l
       | .reverse => l.reverse
@@ -280,6 +283,7 @@ def dstOf : Op → Option String
   | .setFrom d _ => some d | .setFromArr d _ => some d | .setFromMap d _ => some d | .tnew d => some d
   | .tfrom d _ => some d | .tfromArr d _ => some d | .tfromMap d _ => some d | .m1 d .. => some d | .m2 d .. => some d
   | .tget d .. => some d | .keys d _ => some d | .vals d _ => some d
+  | .mklist d .. => some d | .extendv d .. => some d | .concatv d .. => some d | .s1v d .. => some d | .m1v d .. => some d
   | _ => none
 
 def sameContent : SV → SV → Bool
@@ -341,21 +345,40 @@ def checkStep (iface : Bool) (op : Op) (edges : List (String × String × Bool))
           | none => some s!"{d} missing"
         | _, _ => none
 
+/-- spread calls are judged as the same call with the operand list written out: the items are what the caller's
+    slice printed before the call, the members of an operand list are those it was built from -/
+def normOp (all : List Op) (prev : List (String × SV)) : Op → Op
+  | .s1v d s a app => match listOf prev a with
+    | some items => .s1 d s (if app then .append items else .rmitem items)
+    | none => .bad
+  | .m1v d m a k => match listOf prev a with
+    | some items => .m1 d m (match k with | 0 => .add items | 1 => .rmkeys items | _ => .rmvals items)
+    | none => .bad
+  | .extendv d s l => match all.findSome? (fun o => match o with | .mklist n ms _ => if n == l then some ms else none | _ => none) with
+    | some ms => .extend d s ms
+    | none => .bad
+  | .concatv d s l => match all.findSome? (fun o => match o with | .mklist n ms _ => if n == l then some ms else none | _ => none) with
+    | some ms => .concat d s ms
+    | none => .bad
+  | o => o
+
 def judgeCase (line impl : String) : String :=
   let (iface, toks) := parseCase line
   let steps := (impl.splitOn " | ").map parseStep
+  let allOps := toks.map (fun t => famOp line (parseOp t))
   if steps.length != toks.length then "violation malformed observation (steps missing: crash or hang)" else
   let rec go (ops : List Op) (steps : List (String × List (String × SV))) (edges : List (String × String × Bool))
       (prev : List (String × SV)) (i : Nat) : String :=
     match ops, steps with
     | op :: ops', (res, cur) :: steps' =>
+      let op := normOp allOps prev op
       match checkStep iface op edges prev cur res with
       | some why => s!"violation step {i}: {why}"
       | none =>
         let edges' := if res == "ok" then shareEdges iface prev op ++ edges else edges
         go ops' steps' edges' cur (i + 1)
     | _, _ => "allowed every step satisfies persistence and the prescribed contents (model differs)"
-  go (toks.map parseOp) steps [] [] 0
+  go allOps steps [] [] 0
 
 end Judge
 end FpgoVerif.C04
